@@ -222,6 +222,12 @@ def build_cases(quick):
         for nb in (None, 1, 2, 3, 5):
             fan.append(dict(kind="fanout", N=8, pool="serial", size=1, n_batches=nb, n_prior=None, idx=idx))
             fan.append(dict(kind="fanout_post", N=8, pool="serial", size=1, n_batches=nb, n_linear=1, idx=idx))
+    # few indices with LARGE values (beyond 8-bit / 16-bit ranges) into a big library, serial and multi-worker pools
+    for N, idx in ((700, [2, 690, 300, 512, 255, 256, 12]), (70001, [65536, 3, 70000, 65535, 257, 40000])):
+        for nb in (None, 2, 3):
+            for pool, size in (("serial", 1), ("model", 2), ("model", 3)):
+                fan.append(dict(kind="fanout", N=N, pool=pool, size=size, chunksize=1, reverse=(size == 3), n_batches=nb, n_prior=None, idx=idx))
+                fan.append(dict(kind="fanout_post", N=N, pool=pool, size=size, chunksize=1, reverse=(size == 3), n_batches=nb, n_linear=1, idx=idx))
     for N in Ns:
         idxs = [list(range(N)), list(range(N))[::-1], [(3 * i + 1) % N for i in range(N)], [N - 1], [0, N - 1, 1][: min(3, N)]]
         for idx in idxs:
